@@ -109,3 +109,54 @@ pub fn verif_first_word<'a>(s: &'a str) -> (r: Option<&'a str>)
 pub fn verif_opt_str_len_or0(o: Option<&str>) -> (r: usize)
     ensures o is None ==> r == 0, o matches Some(t) ==> r == utf8_len(t@)
 { o.map_or(0, |t| t.len()) }
+//# assumes: s.chars() yields the characters in order; s.chars().rev() yields them last to first
+#[verifier::external_body]
+pub struct VChars<'a> { it: std::str::Chars<'a> }
+pub uninterp spec fn vch_rest(p: &VChars) -> Seq<char>;
+impl<'a> Iterator for VChars<'a> {
+    type Item = char;
+    #[verifier::external_body]
+    fn next(&mut self) -> (r: Option<char>) { self.it.next() }
+}
+impl<'a> IteratorSpecImpl for VChars<'a> {
+    open spec fn obeys_prophetic_iter_laws(&self) -> bool { true }
+    #[verifier::prophetic]
+    open spec fn remaining(&self) -> Seq<char> { vch_rest(self) }
+    #[verifier::prophetic]
+    open spec fn will_return_none(&self) -> bool { true }
+    open spec fn decrease(&self) -> Option<nat> { Some(vch_rest(self).len()) }
+    open spec fn peek(&self, i: int) -> Option<char> { if 0 <= i < vch_rest(self).len() { Some(vch_rest(self)[i]) } else { None } }
+}
+#[verifier::external_body]
+pub fn verif_chars<'a>(s: &'a str) -> (r: VChars<'a>) ensures vch_rest(&r) == s@ { VChars { it: s.chars() } }
+#[verifier::external_body]
+pub struct VCharsRev<'a> { it: std::iter::Rev<std::str::Chars<'a>> }
+pub uninterp spec fn vcr_rest(p: &VCharsRev) -> Seq<char>;
+impl<'a> Iterator for VCharsRev<'a> {
+    type Item = char;
+    #[verifier::external_body]
+    fn next(&mut self) -> (r: Option<char>) { self.it.next() }
+}
+impl<'a> IteratorSpecImpl for VCharsRev<'a> {
+    open spec fn obeys_prophetic_iter_laws(&self) -> bool { true }
+    #[verifier::prophetic]
+    open spec fn remaining(&self) -> Seq<char> { vcr_rest(self) }
+    #[verifier::prophetic]
+    open spec fn will_return_none(&self) -> bool { true }
+    open spec fn decrease(&self) -> Option<nat> { Some(vcr_rest(self).len()) }
+    open spec fn peek(&self, i: int) -> Option<char> { if 0 <= i < vcr_rest(self).len() { Some(vcr_rest(self)[i]) } else { None } }
+}
+#[verifier::external_body]
+pub fn verif_chars_rev<'a>(s: &'a str) -> (r: VCharsRev<'a>) ensures vcr_rest(&r) == s@.reverse() { VCharsRev { it: s.chars().rev() } }
+//# assumes: s.get(..n) / s.get(n..) with n the UTF-8 offset of character position j are the first j characters / the characters from j on (None for an offset inside a character or past the end)
+#[verifier::external_body]
+pub fn verif_str_get_to<'a>(s: &'a str, n: usize) -> (r: Option<&'a str>)
+    ensures forall|j: int| 0 <= j <= s@.len() && n == utf8_len(#[trigger] s@.subrange(0, j)) ==> (r matches Some(x) && x@ == s@.subrange(0, j)),
+{ s.get(..n) }
+#[verifier::external_body]
+pub fn verif_str_get_from<'a>(s: &'a str, n: usize) -> (r: Option<&'a str>)
+    ensures forall|j: int| 0 <= j <= s@.len() && n == utf8_len(#[trigger] s@.subrange(0, j)) ==> (r matches Some(x) && x@ == s@.subrange(j, s@.len() as int)),
+{ s.get(n..) }
+//# assumes: `a == Some(b)` on Option<&str> compares the characters
+#[verifier::external_body]
+pub fn verif_opt_str_eq(a: Option<&str>, b: &str) -> (r: bool) ensures r == (a matches Some(x) && x@ == b@) { a == Some(b) }
